@@ -16,7 +16,7 @@ from harness import _fdiff as F
 PROPERTY = "C02"
 
 II = ("classify", "chained", "lookup", "loops", "comprehension", "gen", "closure", "useclass", "subscripts", "floats",
-      "multiline", "initer", "slices", "neonly", "cmpnone", "tiny", "displays", "tryends", "superattr", "falsyexc", "withtry", "tryreturn", "oneline")
+      "multiline", "initer", "slices", "neonly", "cmpnone", "tiny", "displays", "tryends", "superattr", "falsyexc", "withtry", "tryreturn", "oneline", "boollen")
 SS = ("strfuncs",)
 SSS = ("prefixes", "prefixarg")
 def _args(fname, mask, args):
@@ -52,7 +52,7 @@ def CHECK(fname, mask, args):
 
 def h_ii(f: int, mask: int, a: int, b: int) -> bool:
     """
-    pre: 0 <= f < 23 and 0 <= mask < 8 and -3 <= a <= 3 and -3 <= b <= 3
+    pre: 0 <= f < 24 and 0 <= mask < 8 and -3 <= a <= 3 and -3 <= b <= 3
     post: _
     """
     return reach(CHECK(pick(II, f), mask, (a, b)))
